@@ -203,7 +203,12 @@ def r4(ctx: Ctx) -> None:
     want_dom = ("comp", "list", (b0,), ((b0, ("a", netl, "modules"), ("a", b0, "is_fixed")),))
     mod_loops = [lp for lp in atoms_of(cdd, lambda x: x[0] == "for" and len(x) == 5) if contains(lp[3], a_) or contains(lp[3], "num_rectangles")]
     ctx.site(det.where, "owner candidates == [m for m in netlist.modules if m.is_fixed], for every cell of the allocation", loops=len(mod_loops))
-    inner = [lp for lp in mod_loops if lp[2] == want_dom]
+    def over_fixed(lp):
+        # the loop over the list of fixed modules; in the normal form: the loop over all modules whose whole body is 'if m.is_fixed: ...'
+        if lp[2] == want_dom:
+            return True
+        return lp[2] == ("a", netl, "modules") and len(lp[3]) == 1 and lp[3][0][0] == "if" and lp[3][0][1] == ("a", lp[1], "is_fixed") and lp[3][0][3] == ()
+    inner = [lp for lp in mod_loops if over_fixed(lp)]
     outer = [lp for lp in atoms_of(cdd, lambda x: x[0] == "for" and len(x) == 5) if lp[2] == ("a", ("self",), "allocations") and contains(lp[3], a_)]
     if len(inner) < 2 or len(inner) != len([lp for lp in mod_loops if lp[2] != ("a", ("self",), "allocations")]) or len(outer) != 1:
         ctx.report(det.where, "detector-domain", "the detector does not examine every cell against exactly the fixed modules of the netlist "
